@@ -1,4 +1,5 @@
 import PV.Proofs.DiffMore
+import PV.Proofs.DiffTableCurrent
 /-
   C10 — symbolic differentiation yields the true derivative.
 
@@ -170,6 +171,110 @@ example : ∀ d, diff .none X (.nary .prod [X, mcall .fabs [Y]]) ≠ .ok d :=
 
 /-- non-vacuity of the permission: under "continuous" `fabs` differentiates to `sign` -/
 example : diff .continuous X (mcall .fabs [X]) = .ok (mcall .copysign [one, X]) := rfl
+
+/-! ### the regenerated table (T-gen)
+
+`Generated.c10DiffTable` is rewritten by `extract/differentiator.py` from the SOURCE of
+`pymbolic/mapper/differentiator.py` before every build.  The theorems of this section are
+re-checked against it: an edit of the source that changes a derivative, a sign, a gate, an error
+class, the children a handler differentiates or the order in which it does so changes the table
+and makes one of them fail. -/
+
+open Generated in
+/-- **The function table.**  `map_math_functions_by_name`, read as data from the source (the
+`if func == make_f(name) and len(pars) == k` chain with the expression each branch returns, the
+non-smoothness gates and the errors raised) and interpreted with the overloaded operators,
+answers exactly what the hand-written `funcMap` answers — for every setting, every function
+expression and every argument list. -/
+theorem funcMap_eq_table_current (cfg : Smooth) (f : Expr) (pars : List Expr) :
+    funcMap cfg f pars
+      = c10FuncMapT c10DiffTable.fnModule c10DiffTable.fnElse cfg f pars c10DiffTable.fns :=
+  (c10_funcMap_current cfg f pars).symm
+
+open Generated in
+/-- **The quotient rule** as written in `map_quotient` (four branches on the truthiness of the
+children's derivatives, `-f*dg/g**2`, `self.rec(f)/g`, `(df*g-dg*f)/g**2`) is `quotRule`. -/
+theorem quotRule_eq_table_current (f g df dg : Expr) :
+    liftOp (quotRule f g df dg) = c10RuleEval c10DiffTable.quot f g df dg :=
+  (c10_quot_current f g df dg).symm
+
+open Generated in
+/-- **The power rule** as written in `map_power` is `powRule`. -/
+theorem powRule_eq_table_current (f g df dg : Expr) :
+    liftOp (powRule f g df dg) = c10RuleEval c10DiffTable.pow f g df dg :=
+  (c10_pow_current f g df dg).symm
+
+open Generated in
+/-- **The handlers.**  Every handler defined in the class body, in source order, has the shape
+the model implements: `map_sum` sums the derivatives of all `children`; `map_product` sums, over
+every split, the flattened product of the undifferentiated prefix, the differentiated child and
+the undifferentiated suffix; `map_call` sums `function_map(i, function, parameters, setting) *
+rec(parameter)`; `map_quotient` / `map_power` read (`numerator`, `denominator`) / (`base`,
+`exponent`), differentiate the first child first, and `map_power` builds its logarithm with
+`pymbolic.var("log")`; `map_if` is gated and rebuilds `(condition, rec(then), rec(else_))`; the
+CSE handler rebuilds `(rec(child), prefix, scope)`; `map_subscript` is `map_variable`;
+`rec_undiff` is the identity; `differentiate` wraps a `variable` that is neither a `Variable`
+nor a `Subscript`.  The only `self.rec` call written inside a result is `self.rec(f)` in the third
+branch of `map_quotient` (performed by `diffC`); the accepted settings are the three of `Smooth`,
+`None` stands for `"none"`. -/
+theorem handler_shapes_current :
+    c10DiffTable.shapes = c10ModelShapes ∧
+    c10DiffTable.quot.recalls = [[], [], [.f], []] ∧
+    c10DiffTable.pow.recalls = [[], [], [], []] ∧
+    c10DiffTable.settings.map Smooth.ofName? = [some .none, some .continuous, some .discontinuous] ∧
+    Smooth.ofName? c10DiffTable.noneSetting = some .none ∧
+    c10DiffTable.bases = ["pymbolic.mapper.RecursiveMapper",
+      "pymbolic.mapper.CSECachingMapperMixin"] :=
+  ⟨rfl, rfl, rfl, rfl, rfl, rfl⟩
+
+/-- **The table-driven differentiator is `diff`.**  `c10DiffT T` runs the differentiator with
+the function table, the quotient and power rules, the `If` gate and the leaf rules taken from a
+table `T`; on the table regenerated from the source it computes, for every setting, variable and
+tree, exactly what the hand-written `diff` computes (tree or error). -/
+theorem diff_eq_table_current (cfg : Smooth) (v e : Expr) :
+    diff cfg v e = c10DiffT Generated.c10DiffTable cfg v e :=
+  (c10DiffT_current cfg v e).symm
+
+/-- The main theorem for EVERY table that denotes the proved rules (`c10RulesOf T =
+c10ModelRules`: same function table, quotient rule, power rule, gate and leaf rules as functions,
+however they are written down) … -/
+theorem table_hasDerivAt_partial (T : C10DiffTable) (hT : c10RulesOf T = c10ModelRules)
+    (cfg : Smooth) (v : Expr) (ρ : Expr → ℝ) (t0 : ℝ) (e d : Expr)
+    (h : c10DiffT T cfg v e = .ok d)
+    (hcs : cfg = .discontinuous → csOk e = true)
+    (hd : Dom v t0 (updL ρ v t0) e) :
+    HasDerivAt (fun t => evalR (updL ρ v t) e) (evalR (updL ρ v t0) d) t0 := by
+  refine diff_hasDerivAt_partial cfg v ρ t0 e d ?_ hcs hd
+  rw [← h]
+  unfold c10DiffT
+  rw [hT]
+  exact (diffG_model cfg v e).symm
+
+/-- … and for the table regenerated from the source on this run: what the source's rules,
+read as data, build is the true derivative. -/
+theorem generated_table_hasDerivAt_partial (cfg : Smooth) (v : Expr) (ρ : Expr → ℝ) (t0 : ℝ)
+    (e d : Expr) (h : c10DiffT Generated.c10DiffTable cfg v e = .ok d)
+    (hcs : cfg = .discontinuous → csOk e = true)
+    (hd : Dom v t0 (updL ρ v t0) e) :
+    HasDerivAt (fun t => evalR (updL ρ v t) e) (evalR (updL ρ v t0) d) t0 :=
+  table_hasDerivAt_partial _ c10_rules_current cfg v ρ t0 e d h hcs hd
+
+/-- refusal, for the regenerated table -/
+theorem generated_table_refuses (cfg : Smooth) (v e : Expr) (h : needsRefusal cfg e = true) :
+    ∀ d, c10DiffT Generated.c10DiffTable cfg v e ≠ .ok d := by
+  intro d
+  rw [← diff_eq_table_current]
+  exact diff_refuses cfg v e h d
+
+/-- non-vacuity: the regenerated table has the eleven entries, and running it on
+`d/dx (x*x)/y` gives the tree of the third branch of the quotient rule -/
+example : Generated.c10DiffTable.fns.length = 11 := rfl
+example : c10DiffT Generated.c10DiffTable .none X (.bin .quot (.nary .prod [X, X]) Y)
+    = .ok (.bin .quot (.nary .sum [X, X]) Y) := rfl
+example : c10DiffT Generated.c10DiffTable .continuous X (mcall .fabs [X])
+    = .ok (mcall .copysign [one, X]) := rfl
+example : ∀ d, c10DiffT Generated.c10DiffTable .none X (.nary .prod [X, mcall .fabs [Y]]) ≠ .ok d :=
+  generated_table_refuses .none X _ rfl
 
 /-! ### a variable that does not occur -/
 
